@@ -139,6 +139,11 @@ struct B64Rec<'a> {
     s: &'a str,
     yaml: String,
     obs: Vec<i64>,
+    /// the same scalar read into a String (bytes of the text, <<-1>> on error): decoded payload, which must be UTF-8
+    strobs: Vec<i64>,
+    /// ... with ignore_binary_tag_for_string: the text as written; sbytes = the bytes of `s`
+    strign: Vec<i64>,
+    sbytes: Vec<i64>,
 }
 /// `!!binary` payloads: every case string as a double-quoted scalar into a byte buffer
 pub fn run_b64(args: &Args) -> i32 {
@@ -155,7 +160,13 @@ pub fn run_b64(args: &Args) -> i32 {
             }
             Err(_) => vec![-1],
         };
-        w.put(&B64Rec { id: format!("b{i}"), s: &c.s, yaml, obs });
+        let bytes_of = |r: Result<String, serde_saphyr::Error>| -> Vec<i64> { match r { Ok(t) => t.bytes().map(|x| x as i64).collect(), Err(_) => vec![-1] } };
+        let strobs = bytes_of(fs0::<String>(&yaml));
+        let mut o = serde_saphyr::Options::default();
+        o.ignore_binary_tag_for_string = true;
+        let strign = bytes_of(fswo::<String>(&yaml, o));
+        let sbytes = c.s.bytes().map(|x| x as i64).collect();
+        w.put(&B64Rec { id: format!("b{i}"), s: &c.s, yaml, obs, strobs, strign, sbytes });
     }
     // encode . decode round trip for all byte arrays of length <= 2 and random longer ones (std alphabet, canonical)
     let n = w.n;
